@@ -312,3 +312,45 @@ V("C14-merge-without-merger", "C14", ["C14.R1"], [("formulaic/parser/types/ast_n
                         ),
 """, "")])
 V("C14-python-only-sanitise", "C14", ["C14.R6"], [("formulaic/parser/algos/sanitize_tokens.py", "        if token.kind is Token.Kind.PYTHON:\n            token.token", "        if token.kind is not Token.Kind.OPERATOR:\n            token.token")])
+
+# ----------------------------------------------------------------------------------------- C02
+V("C02-revert-kind-value", "C02", ["C02.R4", "C02.R5"], [(BASE, "                                if evaled_factor.metadata.kind is Factor.Kind.CONSTANT\n                            ],",
+                                                           "                                if evaled_factor.metadata.kind.value\n                                is Factor.Kind.CONSTANT\n                            ],")],
+  "origin: revert 92f65b5 ('2.5:a' unscaled with ensure_full_rank=False)")
+V("C02-sparse-no-scale", "C02", ["C02.R2"], [(PANDAS, """                out[names[i]] = scale * functools.reduce(
+                    spsparse.csc_matrix.multiply,""", """                out[names[i]] = functools.reduce(
+                    spsparse.csc_matrix.multiply,""")])
+V("C02-base-no-scale", "C02", ["C02.R2"], [(BASE, '            out[":".join(p[0] for p in product)] = scale * functools.reduce(', '            out[":".join(p[0] for p in product)] = functools.reduce(')])
+V("C02-builder-no-scale", "C02", ["C02.R2"], [(BASE, "                            spec=spec,\n                            scale=scoped_term.scale,\n", "                            spec=spec,\n")])
+V("C02-intercept-unscaled", "C02", ["C02.R2"], [(BASE, """                    scoped_cols["Intercept"] = (
+                        scoped_term.scale
+                        * self._encode_constant(1, None, {}, spec, drop_rows)
+                    )""", """                    scoped_cols["Intercept"] = (
+                        self._encode_constant(1, None, {}, spec, drop_rows)
+                    )""")])
+V("C02-names-not-rereversed", "C02", ["C02.R1"], [(PANDAS, '            ":".join(reversed(product))\n', '            ":".join(product)\n')], "labels in reversed factor order vs values")
+V("C02-names-unreversed-product", "C02", ["C02.R1"], [(NARWHALS, "            for product in itertools.product(*reversed(factors))\n", "            for product in itertools.product(*factors)\n")],
+  "label enumeration order differs from value enumeration order")
+V("C02-values-unreversed", "C02", ["C02.R1"], [(PANDAS, "            itertools.product(*(factor.items() for factor in reversed(factors)))\n        ):\n            if spec.output",
+                                                "            itertools.product(*(factor.items() for factor in factors))\n        ):\n            if spec.output")])
+V("C02-base-label-from-values", "C02", ["C02.R1"], [(BASE, 'out[":".join(p[0] for p in product)] = scale * functools.reduce(\n                operator.mul, (p[1] for p in product)',
+                                                     'out[":".join(p[0] for p in reverse_product)] = scale * functools.reduce(\n                operator.mul, (p[1] for p in product)')])
+V("C02-solo-guard-le", "C02", ["C02.R3"], [(PANDAS, "            if len(factor) == 1:", "            if len(factor) <= 2:")])
+V("C02-solo-key-values-mismatch", "C02", ["C02.R3"], [(PANDAS, """                            numpy.multiply,
+                            (numpy.asanyarray(p) for p in solo_factors.values()),""", """                            numpy.multiply,
+                            (numpy.asanyarray(p) for p in factors[0].values()),""")])
+V("C02-eval-method-literal", "C02", ["C02.R4"], [(BASE, 'if factor.eval_method.value == "lookup":', 'if factor.eval_method.value == "look_up":')])
+V("C02-na-action-value-is", "C02", ["C02.R4"], [(BASE, "        if na_action is NAAction.IGNORE:", "        if na_action.value is NAAction.IGNORE:")])
+V("C02-constant-branch-dropped", "C02", ["C02.R5"], [(BASE, "            if factor.metadata.kind is Factor.Kind.CONSTANT:\n                scale *= factor.values\n            elif factor.metadata.spans_intercept:",
+                                                      "            if factor.metadata.spans_intercept:")])
+V("C02-merge-scale-dropped", "C02", ["C02.R5"], [(BASE, "                                scale=existing_term.scale * scoped_term.scale,", "                                scale=scoped_term.scale,")])
+V("C02-flatten-wrong-value", "C02", ["C02.R6"], [(BASE, "                flattened[subname] = value", "                flattened[subname] = values")])
+V("C02-sibling-drift", "C02", ["C02.R7"], [(NARWHALS, "        series = value * numpy.ones(nrows)\n        return series\n\n    @override\n    def _encode_numerical(\n        self,\n        values: Any,\n        metadata: Any,\n        encoder_state: dict[str, Any],\n        spec: ModelSpec,\n        drop_rows: Sequence[int],\n    ) -> Any:\n        if drop_rows:\n            values = drop_nulls(values, indices=drop_rows)\n        if spec.output == \"sparse\":\n            return spsparse.csc_matrix(\n                numpy.array(values).reshape((values.shape[0], 1))\n            )\n        return values\n\n    @override\n    def _encode_categorical(\n        self,\n        values: Any,\n        metadata: Any,\n        encoder_state: dict[str, Any],\n        spec: ModelSpec,\n        drop_rows: Sequence[int],\n        reduced_rank: bool = False,\n    ) -> Any:\n        # Even though we could reduce rank here, we do not, so that the same\n        # encoding can be cached for both reduced and unreduced rank. The\n        # rank will be reduced in the _encode_evaled_factor method.\n        from formulaic.transforms import encode_contrasts\n\n        if drop_rows:\n            values = drop_nulls(values, indices=drop_rows)\n        if nw",
+                                            "        series = value + numpy.zeros(nrows)\n        return series\n\n    @override\n    def _encode_numerical(\n        self,\n        values: Any,\n        metadata: Any,\n        encoder_state: dict[str, Any],\n        spec: ModelSpec,\n        drop_rows: Sequence[int],\n    ) -> Any:\n        if drop_rows:\n            values = drop_nulls(values, indices=drop_rows)\n        if spec.output == \"sparse\":\n            return spsparse.csc_matrix(\n                numpy.array(values).reshape((values.shape[0], 1))\n            )\n        return values\n\n    @override\n    def _encode_categorical(\n        self,\n        values: Any,\n        metadata: Any,\n        encoder_state: dict[str, Any],\n        spec: ModelSpec,\n        drop_rows: Sequence[int],\n        reduced_rank: bool = False,\n    ) -> Any:\n        # Even though we could reduce rank here, we do not, so that the same\n        # encoding can be cached for both reduced and unreduced rank. The\n        # rank will be reduced in the _encode_evaled_factor method.\n        from formulaic.transforms import encode_contrasts\n\n        if drop_rows:\n            values = drop_nulls(values, indices=drop_rows)\n        if nw")])
+V("C02-rename-loopvar-equiv", "C02", [], [(BASE, """        for reverse_product in itertools.product(
+            *(factor.items() for factor in reversed(factors))
+        ):
+            product = reverse_product[::-1]""", """        for rp in itertools.product(
+            *(fct.items() for fct in reversed(factors))
+        ):
+            product = rp[::-1]""")])
